@@ -56,6 +56,13 @@ fn residue_prone_split_ratio(i: &Input, _c: &Value) -> bool {
 }
 
 pub fn ledger_residue_prone(txs: &[Transaction]) -> bool {
+    // exact evaluation must need a share count without finite decimal expansion (a position such as 28/3, a unit
+    // factor 1/3 between a sale and its 30-day purchase, a purchase of 1 share expressed in pre-split thirds);
+    // a ledger whose share counts are all finite decimals (BUY 300; UNSPLIT 3; SELL 100) is NOT in the class
+    let Ok(rtx) = mcx::refmodel::to_rtx(txs, &mcx::refmodel::no_fx) else { return false };
+    if !mcx::refmodel::evaluate(&rtx).non_decimal_share_count {
+        return false;
+    }
     for e in txs {
         let (ratio, is_unsplit) = match &e.operation {
             Operation::Split { ratio } => (*ratio, false),
